@@ -272,6 +272,29 @@ fn split_top(s: &str, op: &str) -> Option<(String, String)> {
     None
 }
 
+/// No generated column / alias name (`r3`, `s03`, `x4`, `c1`, `w2`, `t0`)
+/// outside string literals.
+fn is_column_free(e: &str) -> bool {
+    let b: Vec<char> = e.chars().collect();
+    let mut in_str = false;
+    let mut i = 0;
+    while i < b.len() {
+        if b[i] == '\'' {
+            in_str = !in_str;
+        } else if !in_str && b[i].is_ascii_lowercase() && (i == 0 || !(b[i - 1].is_alphanumeric() || b[i - 1] == '_')) {
+            let mut j = i + 1;
+            while j < b.len() && b[j].is_ascii_digit() {
+                j += 1;
+            }
+            if j > i + 1 && (j == b.len() || !(b[j].is_alphanumeric() || b[j] == '_')) {
+                return false;
+            }
+        }
+        i += 1;
+    }
+    true
+}
+
 fn or_absorption_shape(sql: &str) -> bool {
     // every parenthesised group that is an OR at its top level
     let b = sql.as_bytes();
@@ -292,7 +315,14 @@ fn or_absorption_shape(sql: &str) -> bool {
                 if let Some((l, r)) = split_top(group, " OR ") {
                     for (x, other) in [(&l, &r), (&r, &l)] {
                         if let Some((p, q)) = split_top(other, " AND ") {
-                            if &p == x || &q == x {
+                            // `"r6"."s11"` and `r6.s11` are the same column
+                            let n = |e: &str| e.replace('"', "");
+                            if n(&p) == n(x) || n(&q) == n(x) {
+                                return true;
+                            }
+                            // the same shape after constant folding: X and the
+                            // conjunct are both column-free (`true` and `'' <= ''`)
+                            if is_column_free(x) && (is_column_free(&p) || is_column_free(&q)) {
                                 return true;
                             }
                         }
